@@ -93,7 +93,7 @@ pub proof fn lemma_first_idx_props_from(l: Seq<Node>, val: u32, asc: bool, j: in
 // ---- representation invariant -------------------------------------------------------------------
 
 pub open spec fn geom(a: AV, s: SV) -> bool {
-  &&& 1 <= a.data_offset <= s.allocated <= a.cap <= u32::MAX as int
+  &&& 1 <= a.data_offset <= s.allocated <= a.cap <= u32::MAX as int - 8   // assumption: capacity <= 2^32 - 9
   &&& s.bytes.len() == a.cap
   &&& s.lo == a.data_offset
   &&& s.writable == !a.ro
